@@ -119,7 +119,45 @@ def work(case):
     return out, nontrivial, fail
 
 
+def atomic_cases():
+    """a singleton pattern; a local event and a peer's record arrive at the same moment on two threads"""
+    ev = lambda i, d: (i, i, 0, d, 0, 0)        # noqa: E731
+    out = []
+    for shape, single_first in ((["R", "R"], 1), (["R", "R", "R"], 1), (["R", "RL", "R"], 1)):
+        p = G.pattern(1, G.assign(shape, 0, "distinct"), (), (), True)
+        cfg = dict(phen=[(1, [p])], maxcache=50, idbase=1000)
+        g1 = p["blocks"][0]["group"]
+        remote_new = dict(id=2000, ph=1, pat=1, idx=1, hist=[(g1, [ev(900, 1)])])
+        starts = ("local", ev(0, 1))
+        for prefix, a, b in (([], starts, ("remote", dict(comp=[], halt=[], upd=[remote_new]))),
+                             ([], ("remote", dict(comp=[], halt=[], upd=[remote_new])), starts),
+                             ([starts], ("local", ev(1, 2)), ("remote", dict(comp=[], halt=[dict(remote_new, id=1000, hist=[(g1, [ev(0, 1)])])], upd=[]))),
+                             ([starts], ("remote", dict(comp=[], halt=[dict(remote_new, id=1000, hist=[(g1, [ev(0, 1)])])], upd=[remote_new])), ("local", ev(1, 1)))):
+            out.append((cfg, prefix, a, b))
+    return out
+
+
+def atomic_half(res):
+    n = 0
+    for ci, (cfg, prefix, a, b) in enumerate(atomic_cases()):
+        for k in range(1, 400):
+            reached, got, serial, excs = SD.atomic_pair(cfg, prefix, a, b, k)
+            if not reached:
+                break
+            n += 1
+            if excs or got not in serial:
+                res.failures.append(dict(
+                    signature="decider-operations-not-atomic",
+                    what="singleton pattern: a %s operation started when a %s operation was at line %d of decider.py: notifications "
+                         "and final state are those of neither order of the two operations%s" % (b[0], a[0], k, "; raised %r" % excs if excs else ""),
+                    case=dict(atomic=ci, line=k), detail=dict(got=repr(got)[:600], serial=repr(serial)[:1200])))
+                break
+        res.note_case(("atomic", ci), True)
+    res.extra["two_caller_interleavings_of_decider_operations"] = n
+
+
 def run(ctx, res):
+    atomic_half(res)
     cases = gen_cases(ctx)
     results = pmap(work, cases)
     coq_cases = []
@@ -144,6 +182,15 @@ def replay(obj):
     if not case:
         print(obj)
         return 0
+    if "atomic" in case:
+        cfg, prefix, a, b = atomic_cases()[case["atomic"]]
+        reached, got, serial, excs = SD.atomic_pair(cfg, prefix, a, b, case["line"])
+        print("a %s operation started when a %s operation is at line %d of decider.py" % (b[0], a[0], case["line"]))
+        print("outcome          :", got)
+        print("serial a;b / b;a :", serial)
+        bad = bool(excs) or got not in serial
+        print("neither serial order" if bad else "equal to one of the serial orders")
+        return 1 if bad else 0
     cfg, ops = pC12.norm_case(case)
     out, _, fail = work((cfg, ops))
     model, _ = common.coq_eval("C13r", SD.IMPORTS, "run_decider %s" % SD.case_coq(cfg, ops))
